@@ -24,7 +24,7 @@ OPEN = {
     "C05": ["C05_cost: cost_parse s <= c1*|s| + c2*|items s|*K s -- no cost model was built; time scaling is measured only (thorough tier)"],
     "C12": ["C12_restyle: forall sty1 sty2 a, wf a -> parse (render sty1 a) = parse (render sty2 a) -- corollary of the open C01/C02 statements; attribute order proved for 3 tags + generic theorem, not instantiated for all 12 attribute-list tags; header-tag and segment-tag order permutations not proved (sampled)"],
     "C14": ["C14_T for EXT-X-KEY / STREAM-INF as an iff over all attribute lists: only the invariant direction is proved for keys; stream tags are by typing (BANDWIDTH / URI are required fields of the result)"],
-    "C16": ["C16_slide: sliding the window keeps number/URI/range/keys/IV -- not proved (needs the restatement function and C06-C08 composed); sampled by the correspondence check"],
+    "C16": ["C16_slide is proved for the restatement the WRITER produces for the slid value (keys and maps re-announced by the library itself); a server that restates tags differently (e.g. repeats all keys in another order) is covered by C06/C12 only; wf_media carries the float/duration hypotheses"],
     "C18": ["C18_float / C18_ufloat / C18_duration: parse (print v) = v for every finite f32 and every duration below 10^6 s -- rests on the modelled std float conversions; enters the tag theorems as the decidable hypotheses float_rt / ufloat_rt / dur_rt (evaluated on sample values in C18_float_hypotheses), validated by correspondence and sweep, not proved"],
     "C20": ["C20_agree: for content without explicit numbers, builder_run (calls a order) = parse_media (render canon a) up to obs -- only the shared build() and the setter algebra are proved; agreement of the two paths is sampled"],
 }
